@@ -269,7 +269,7 @@ func streamC39(h *H) {
 		return inv
 	}
 
-	n := h.N(150, 3000)
+	n := h.N(150, 1200)
 	for i := 0; i < n; i++ {
 		rp := repos[h.Intn(len(repos))]
 		inv := gen(rp)
